@@ -1,9 +1,9 @@
 SPECIFICATION TraceSpec
-CONSTANTS Src = {"v","b","g"}
-          Tgt = {"v","t","g"}
+CONSTANTS Src = {"v","b","g","r","h","y","e","s","z"}
+          Tgt = {"v","t","g","s"}
           Ids = {"i1","i2","i3","i4","i5","i6"}
           Vars = {1,2}
-          Gated = {"g"}
+          Gated = {"g","y","z"}
           MaxH = 1
           EmitOn = "off"
 CONSTRAINT HighWater
